@@ -6,13 +6,18 @@ import (
 )
 
 func init() {
-	// frontend: {dir} -> LoadPackage + validatePackage (what `yardl validate` does, minus -c overrides).
+	// frontend: {dir} -> LoadPackage + updatePackageInfoFromArgs (no overrides) + validatePackage: the steps of `yardl validate`.
 	handlers["frontend"] = func(req map[string]any) map[string]any {
 		dir := str(req, "dir")
 		resp := map[string]any{}
 		p, err := packaging.LoadPackage(dir)
 		if err != nil {
 			resp["stage"] = "load"
+			resp["err"] = err.Error()
+			return resp
+		}
+		if err := cmd.VerifUpdatePackageInfoFromArgs(p, map[string]string{}); err != nil {
+			resp["stage"] = "config"
 			resp["err"] = err.Error()
 			return resp
 		}
